@@ -7,7 +7,7 @@ from mc import common, mk, sched
 from mc.common import Stats
 from mc.props import c13
 
-THREAD_SCENARIOS = ['seq', 'opt', 'bits', 'proto-pickle', 'selector-fresh', 'selector-shared', 'marker', 'regex-kept', 'regex-nonkept',
+THREAD_SCENARIOS = ['seq', 'opt', 'bits', 'proto-pickle', 'selector-fresh', 'selector-shared', 'selector-two', 'marker', 'regex-kept', 'regex-nonkept',
                     'described', 'two-levels', 'positioned', 'seq-data', 'default-list', 'expr']
 
 
@@ -54,48 +54,66 @@ def _shard(shard, nshards, payload):
     bdir = os.path.dirname(bisturi.__file__)
     for scname in THREAD_SCENARIOS:
         for gen in ((True,) if tier == 'quick' else (True, False)):
-            with mk.World() as w:
-                mod, classes, body = c13.define(scname, gen, w)
-                dirs = (bdir, w.scratch.dir)
-                for label, spec in programs(scname, tier):
-                    b3 = bound if len(spec) == 2 else 1
-                    # single-threaded reference observations (also warms every lazy path up)
-                    for _ in range(2):
-                        expected = []
-                        for b in make(mod, spec):
-                            try:
-                                expected.append(('ok', b()))
-                            except Exception as e:
-                                expected.append(('exc', type(e).__name__, str(e)[:200]))
-                    seen = set()
+            for label, spec in programs(scname, tier):
+                b3 = bound if len(spec) == 2 else 1
+                worlds = []
 
-                    def check(x, expected=expected, scname=scname, gen=gen, label=label, spec=spec, seen=seen):
-                        seen.add(common.digest(x.results))
-                        if x.results != expected:
-                            bad = [i for i in range(len(expected)) if x.results[i] != expected[i]]
-                            # replay twice: the same schedule must fail every time
-                            again = [sched.Execution(make(mod, spec), x.choices, dirs).run().results for _ in range(2)]
-                            if again[0] != x.results or again[1] != x.results:
-                                st.notes.append('HARNESS: schedule %r of %s/%s is not reproducible' % (x.choices, scname, label))
-                                return
-                            e = {'sig': 'bystander pack changed', 'exp': expected[bad[0]][1][1:2] and ('ok', expected[bad[0]][1][1]) if expected[bad[0]][0] == 'ok' else None,
-                                 'got': ('ok', x.results[bad[0]][1][1]) if x.results[bad[0]][0] == 'ok' else None}
-                            sig = c13.narrow(scname, e) if e['exp'] and e['got'] else '%s: thread observation differs' % scname
-                            if not sig.startswith('regex delimiter'):
-                                sig = '%s: thread observation differs' % scname
-                            st.violate(sig, '%s (generated=%s) threads %s, schedule %r: thread %d observed %r, alone it observes %r' % (
-                                scname, gen, label, x.choices, bad[0], x.results[bad[0]], expected[bad[0]]),
-                                {'schedule': x.choices, 'scenario': scname, 'gen': gen, 'spec': [[k, v] for k, v in spec]})
+                def fresh(scname=scname, gen=gen, spec=spec, worlds=worlds):
+                    """every execution starts from the same initial state: freshly defined classes"""
+                    while worlds:
+                        worlds.pop().dispose()
+                    w = mk.World()
+                    worlds.append(w)
+                    mod, classes, body = c13.define(scname, gen, w)
+                    return make(mod, spec), (bdir, w.scratch.dir)
 
-                    res = sched.explore(lambda: make(mod, spec), dirs, b3, check, field_base=Field, shard=shard, nshards=nshards)
-                    tot['schedules'] += res['schedules']
-                    tot['points'] += res['points']
-                    tot['overlaps'] += res['overlaps']
-                    tot['errors'].extend(res['errors'])
-                    st.add('thread_states', (scname, gen, label, tuple(sorted(seen))))
-                    st.inc('thread_outcomes', len(seen))
-                    if shard == 0:
-                        st.sample({'threads': label, 'scenario': scname, 'points_per_schedule': res['maxpoints'], 'preemption_bound': b3}, cap=3)
+                # single-threaded reference observations, each on fresh classes
+                expected = []
+                for i in range(len(spec)):
+                    bodies, _ = fresh()
+                    try:
+                        expected.append(('ok', bodies[i]()))
+                    except Exception as e:
+                        expected.append(('exc', type(e).__name__, str(e)[:200]))
+                seen = set()
+
+                def check(x, expected=expected, scname=scname, gen=gen, label=label, spec=spec, seen=seen, fresh=fresh):
+                    seen.add(common.digest(x.results))
+                    if x.results != expected:
+                        bad = [i for i in range(len(expected)) if x.results[i] != expected[i]]
+                        # replay twice: the same schedule must fail every time
+                        again = []
+                        for _ in range(2):
+                            bodies, dirs = fresh()
+                            again.append(sched.Execution(bodies, x.choices, dirs).run().results)
+                        if again[0] != x.results or again[1] != x.results:
+                            st.notes.append('HARNESS: schedule %r of %s/%s is not reproducible' % (x.choices, scname, label))
+                            return
+                        e = {'sig': 'bystander pack changed', 'exp': None, 'got': None}
+                        try:
+                            if expected[bad[0]][0] == 'ok' and x.results[bad[0]][0] == 'ok':
+                                e['exp'] = ('ok', expected[bad[0]][1][1])
+                                e['got'] = ('ok', x.results[bad[0]][1][1])
+                        except Exception:
+                            pass
+                        sig = c13.narrow(scname, e) if e['exp'] and e['got'] else ''
+                        if not sig.startswith('regex delimiter'):
+                            sig = '%s: thread observation differs' % scname
+                        st.violate(sig, '%s (generated=%s) threads %s, schedule %r: thread %d observed %r, alone it observes %r' % (
+                            scname, gen, label, x.choices, bad[0], x.results[bad[0]], expected[bad[0]]),
+                            {'schedule': x.choices, 'scenario': scname, 'gen': gen, 'spec': [[k, v] for k, v in spec]})
+
+                res = sched.explore(fresh, None, b3, check, field_base=Field, shard=shard, nshards=nshards)
+                while worlds:
+                    worlds.pop().dispose()
+                tot['schedules'] += res['schedules']
+                tot['points'] += res['points']
+                tot['overlaps'] += res['overlaps']
+                tot['errors'].extend(res['errors'])
+                st.add('thread_states', (scname, gen, label, tuple(sorted(seen))))
+                st.inc('thread_outcomes', len(seen))
+                if shard == 0:
+                    st.sample({'threads': label, 'scenario': scname, 'points_per_schedule': res['maxpoints'], 'preemption_bound': b3}, cap=3)
     st.n['schedules'] = tot['schedules']
     st.n['points'] = tot['points']
     st.n['overlaps'] = tot['overlaps']
@@ -120,22 +138,32 @@ def run(tier):
 
 def replay(case):
     import bisturi
-    with mk.World() as w:
+    bdir = os.path.dirname(bisturi.__file__)
+    spec = [(k, v) for k, v in case['spec']]
+    worlds = []
+
+    def fresh():
+        while worlds:
+            worlds.pop().dispose()
+        w = mk.World()
+        worlds.append(w)
         mod, classes, body = c13.define(case['scenario'], case['gen'], w)
-        spec = [(k, v) for k, v in case['spec']]
-        dirs = (os.path.dirname(bisturi.__file__), w.scratch.dir)
-        expected = []
-        for _ in range(2):
-            expected = []
-            for b in make(mod, spec):
-                try:
-                    expected.append(('ok', b()))
-                except Exception as e:
-                    expected.append(('exc', type(e).__name__, str(e)[:200]))
-        r1 = sched.Execution(make(mod, spec), case['schedule'], dirs).run()
-        r2 = sched.Execution(make(mod, spec), case['schedule'], dirs).run()
-        if r1.results != r2.results:
-            raise RuntimeError('schedule not reproducible')
-        if r1.results != expected:
-            return [{'sig': 'thread observation differs', 'what': 'schedule %r: %r vs alone %r' % (case['schedule'], r1.results, expected)}]
+        return make(mod, spec), (bdir, w.scratch.dir)
+    expected = []
+    for i in range(len(spec)):
+        bodies, _ = fresh()
+        try:
+            expected.append(('ok', bodies[i]()))
+        except Exception as e:
+            expected.append(('exc', type(e).__name__, str(e)[:200]))
+    runs = []
+    for _ in range(2):
+        bodies, dirs = fresh()
+        runs.append(sched.Execution(bodies, case['schedule'], dirs).run().results)
+    while worlds:
+        worlds.pop().dispose()
+    if runs[0] != runs[1]:
+        raise RuntimeError('schedule not reproducible')
+    if runs[0] != expected:
+        return [{'sig': 'thread observation differs', 'what': 'schedule %r: %r vs alone %r' % (case['schedule'], runs[0], expected)}]
     return []
